@@ -33,6 +33,12 @@ HexNoLead(v) ==
   LET RECURSIVE H(_) H(x) == IF x = 0 THEN <<>> ELSE H(x \div 16) \o <<UpperDigit(x % 16)>>
   IN  IF v = 0 THEN <<48>> ELSE H(v)
 V_bin2hex(e) == IF IsStr(e.res, HexNoLead(IntOfBits(e.bits))) THEN "ok" ELSE "bin2hex_value"
+\* bin2hex of a whole 56 / 112-bit frame (as the demodulator calls it): its hex text without leading zeros
+StripZeros(t) ==
+  LET RECURSIVE S(_) S(k) == IF k >= Len(t) THEN k ELSE IF t[k] = 48 THEN S(k + 1) ELSE k
+      k0 == S(1)
+  IN  SubSeq(t, k0, Len(t))
+V_bin2hex_frame(e) == IF IsStr(e.res, StripZeros(TextOfBytes(e.frame))) THEN "ok" ELSE "bin2hex_frame_value"
 
 \* floor(x): x = e.num / e.den
 V_floor(e) == IF IsInt(e.res, FloorDiv(e.num, e.den)) THEN "ok" ELSE "floor_value"
